@@ -126,21 +126,23 @@ func concatMaps(ms reflect.Value) (reflect.Value, error) {
 	for i := 0; i < n; i++ {
 		m := ms.Index(i)
 
-		for _, key := range m.MapKeys() {
+		for iter := m.MapRange(); iter.Next(); {
+			key, val := iter.Key(), iter.Value()
+
 			vals := rms.MapIndex(key)
 			if !vals.IsValid() {
 				var s []any
 				vals = reflect.ValueOf(s)
 			}
 
-			val := m.MapIndex(key)
 			vals = reflect.Append(vals, val)
 			rms.SetMapIndex(key, vals)
 		}
 	}
 
-	for _, key := range rms.MapKeys() {
-		vals := rms.MapIndex(key)
+	// (not MapKeys+MapIndex: a NaN key of a float-keyed map is never found again by a lookup)
+	for iter := rms.MapRange(); iter.Next(); {
+		key, vals := iter.Key(), iter.Value()
 
 		anyVals := vals.Interface().([]any)
 
